@@ -28,11 +28,27 @@ type injector struct {
 	noSync bool
 	// onlyWrites: only write events are counted (fail the n-th record write whatever else happens in between)
 	onlyWrites bool
+	// afterWrites > 0: fail the first sync that follows the afterWrites-th record write (the sync after a commit's
+	// last record, when the caller knows how many records the commit has); n is ignored then
+	afterWrites int
+	writes      int
 }
 
 func (in *injector) onEvent(ev *FSEvent) (bool, int, error) {
 	if !in.armed || (in.noSync && ev.Op == "sync") || (in.onlyWrites && ev.Op != "write") {
 		return false, 0, nil
+	}
+	if in.afterWrites > 0 {
+		if ev.Op == "write" {
+			in.writes++
+		}
+		if ev.Op != "sync" || in.writes < in.afterWrites || in.fired != nil {
+			return false, 0, nil
+		}
+		e := *ev
+		in.fired = &e
+		atomic.StoreInt32(&faultInjectedInCase, 1)
+		return true, 0, errInjected
 	}
 	in.count++
 	if in.count != in.n || in.fired != nil {
@@ -360,6 +376,9 @@ func runC12(c *CaseCtx) {
 			}
 			mergeSoon = true
 			stopRetry := false
+			// two-record template with SyncEnable: half of the time the first attempt fails exactly at the sync that
+			// follows the second (last) record - the one fault position whose outcome is really in doubt
+			lastSync := tplTx && cfg.Sync && len(t0.Ops) == 2 && r.Intn(2) == 0
 			for j := 1; j <= 14 && !run.Dead && !c.Violated(); j++ {
 				// every attempt writes its own values: a record left behind by a failed attempt is then
 				// distinguishable from what a later, successful attempt commits
@@ -375,11 +394,15 @@ func runC12(c *CaseCtx) {
 					}
 				}
 				inj.armed, inj.n, inj.count, inj.fired, inj.partial = true, j, 0, nil, r.Intn(2) == 0
+				inj.afterWrites, inj.writes = 0, 0
+				if lastSync && j == 1 {
+					inj.afterWrites = 2
+				}
 				before := run.M
 				beforeObs := obsModel(before, u)
 				// run against a scratch model first: the outcome decides which model survives
 				out := execTx(run.DB, t)
-				inj.armed = false
+				inj.armed, inj.afterWrites = false, 0
 				run.NTx++
 				c.Log("tx %d (fault at file operation #%d, partial=%v) %s", run.NTx, j, inj.partial, t.String())
 				c.Stat("transactions", 1)
@@ -445,6 +468,9 @@ func runC12(c *CaseCtx) {
 					break
 				}
 				if inj.fired.Op == "sync" {
+					if lastSync && j == 1 {
+						c.Stat("template_faults_at_the_last_sync", 1)
+					}
 					// outcome in doubt: all or nothing, in the process and after reopen
 					m := run.M.Clone()
 					for k, o := range t.Ops {
